@@ -25,11 +25,11 @@ pub open spec fn no_never_any(ts: Seq<LuaType>) -> bool { forall|i: int| 0 <= i 
 pub open spec fn single_plain(t: LuaType) -> bool { plain(t) && !(t is Never) && !(t is Any) }
 /// `exists e in s: e == x` (argument order of slice::contains)
 pub open spec fn contains_eq(s: Seq<LuaType>, x: LuaType) -> bool { exists|i: int| 0 <= i < s.len() && teq(#[trigger] s[i], x) }
-/// LuaType::eq restricted to the values of a batch is an equivalence (PartialEq/Eq contract; FloatConst(NaN) breaks reflexivity)
+/// LuaType::eq restricted to the values of a batch is reflexive and symmetric (PartialEq/Eq contract; FloatConst(NaN) breaks
+/// reflexivity). Transitivity is not needed.
 pub open spec fn eq_regular(ts: Seq<LuaType>) -> bool {
     &&& forall|a: LuaType| ts.contains(a) ==> #[trigger] teq(a, a)
     &&& forall|a: LuaType, b: LuaType| ts.contains(a) && ts.contains(b) && #[trigger] teq(a, b) ==> teq(b, a)
-    &&& forall|a: LuaType, b: LuaType, c: LuaType| ts.contains(a) && ts.contains(b) && ts.contains(c) && #[trigger] teq(a, b) && #[trigger] teq(b, c) ==> teq(a, c)
 }
 /// whenever a LATER member equals an earlier one, it is of a variant hashed by value (so the hash set finds the earlier one)
 pub open spec fn dup_coherent(ts: Seq<LuaType>) -> bool {
@@ -97,6 +97,9 @@ pub proof fn lemma_teq_nil(a: LuaType)
 /// batch goes through (empty = Never, a single plain type, a union)
 pub open spec fn impl_post(ms: LuaType, source: LuaType, target: LuaType, r: LuaType) -> bool {
     &&& (ms is Never && !(target is Any)) ==> r == target
+    // a `never` target leaves the accumulator alone - unless the alias-resolved accumulator is any (finding E7)
+    &&& (target is Never && !(ms is Any) && !(ms is Never)) ==> r == source
+    &&& (ms is Any || target is Any) ==> r is Any
     &&& (eq_obeys() && ms == source && single_plain(source) && single_plain(target) && !pair_rule(source, target))
             ==> (if teq(source, target) { r == source } else { from_vec_post(seq![source, target], r) })
     &&& (eq_obeys() && ms == source && source is Union && single_plain(target))
